@@ -73,12 +73,16 @@ def h_region_only(ctx):
 
 def h_with_coordinates(ctx):
     npts = ctx.cfg["npts"]
+    sh = tuple(ctx.cfg.get("shape", (npts,)))
     w, e, s, n, d, full = _inputs(ctx)
     lon = ctx.reals("lon", npts, -180, 360)
     lat = ctx.reals("lat", npts, -90, 90)
-    coords, region = vc.longitude_continuity((lon, lat), [w, e, s, n])
+    coords, region = vc.longitude_continuity((lon.reshape(sh), lat.reshape(sh)), [w, e, s, n])
     w2, e2, s2, n2 = _region_claims(ctx, region, w, e, s, n, d, full)
-    ctx.claim("two coordinate arrays of the input's shape", And(len(coords) == 2, np.shape(coords[0]) == (npts,), np.shape(coords[1]) == (npts,)))
+    ctx.claim("two coordinate arrays of the input's shape", And(len(coords) == 2, np.shape(coords[0]) == sh, np.shape(coords[1]) == sh))
+    if not (len(coords) == 2 and np.shape(coords[0]) == sh and np.shape(coords[1]) == sh):
+        return
+    coords = (np.ravel(coords[0]), np.ravel(coords[1]))
     in360 = And(ge(w2, 0), le(e2, 360))
     for i in range(npts):
         l2 = coords[0][i]
@@ -92,6 +96,7 @@ def h_with_coordinates(ctx):
         inside_lon = And(le(w2, l2), le(l2, e2))
         ctx.claim("a longitude angularly within the arc (short of its east end) is inside the returned bounds", Implies(lt(x, d), inside_lon))
         ctx.claim("a longitude angularly beyond the arc is outside the returned bounds", Implies(gt(x, d), Not(inside_lon)))
+        ctx.claim("a longitude exactly on the arc's east end is inside the returned bounds unless that end sits on a seam (360 / 180) of the convention", Implies(And(eq(x, d), Not(eq(e2, 360)), Not(eq(e2, 180))), inside_lon))
     # the real inside() on the returned values agrees with the angular predicate
     latbox = (w2, e2, s2, n2)
     try:
@@ -111,10 +116,11 @@ def h_rejects(ctx):
     e = ctx.real("E")
     s = ctx.real("S")
     n = ctx.real("N")
-    lon = ctx.reals("lon", 1)
-    lat = ctx.reals("lat", 1)
+    npts = ctx.cfg.get("npts", 1)
+    lon = ctx.reals("lon", npts)
+    lat = ctx.reals("lat", npts)
     bad_region = Or(gt(w, 360), lt(w, -180), gt(e, 360), lt(e, -180), gt(s, 90), lt(s, -90), gt(n, 90), lt(n, -90), gt(sabs(e - w), 360))
-    bad_coords = Or(gt(lon[0], 360), lt(lon[0], -180), gt(lat[0], 90), lt(lat[0], -90))
+    bad_coords = Or([Or(gt(lon[i], 360), lt(lon[i], -180), gt(lat[i], 90), lt(lat[i], -90)) for i in range(npts)])  # any one point out of range
     try:
         vc.longitude_continuity(None, [w, e, s, n])
         ctx.claim("accepted regions are within the degree ranges", Not(bad_region))
@@ -139,9 +145,9 @@ HARNESSES = [
     Harness(
         "with_coordinates",
         h_with_coordinates,
-        lambda tier, seed: [{"npts": 1}] + ([{"npts": 2}, {"npts": 3}] if tier == "thorough" else []),
-        bounds="as region_only plus 1 (quick) / 2-3 (thorough) symbolic longitudes in [-180, 360] and latitudes in [-90, 90]",
-        outside="longitudes exactly on the arc's east end (seam); OUT-FP",
+        lambda tier, seed: [{"npts": 1}, {"npts": 2, "shape": (2, 1)}] + ([{"npts": 2}, {"npts": 3}, {"npts": 2, "shape": (1, 2)}] if tier == "thorough" else []),
+        bounds="as region_only plus 1-2 (quick) / 2-3 (thorough) symbolic longitudes in [-180, 360] and latitudes in [-90, 90], as 1-D or 2-D arrays",
+        outside="longitudes exactly on an east end that sits on a seam of the convention; OUT-FP",
     ),
-    Harness("rejects", h_rejects, {"quick": [{}]}, bounds="unconstrained symbolic region and one point"),
+    Harness("rejects", h_rejects, {"quick": [{}, {"npts": 2}]}, bounds="unconstrained symbolic region and one or two points (any one of them out of range)"),
 ]
